@@ -298,6 +298,11 @@ func (b *bufferWriter) expectBody(r *http.Request) bool {
 }
 
 func (b *bufferWriter) Close() error {
+	// A body that went to disk is only removed by closing a reader of it. When none was taken
+	// (response over the limit, or of a kind that carries no body) take one now just to release the file.
+	if rdr, err := b.buffer.Reader(); err == nil {
+		_ = rdr.Close()
+	}
 	return b.buffer.Close()
 }
 
